@@ -250,6 +250,7 @@ Proof.
   unfold import_message_signals in H. cbv zeta in H.
   destruct (filter (fun p : Z * dsignal => ds_muxor (snd p)) _) as [|[mid dmx] [|m2 mr]] eqn:Emux.
   - (* no multiplexor *)
+    destruct (existsb _ _); [discriminate|].
     assert (P : evolved st st' /\ lay_inv st' L sigs).
     { revert H. apply (fold_result_inv _ (fun a => evolved st (fst a) /\ lay_inv (fst a) L (snd a)));
         [intros [i x] w; reflexivity| |split; [exact Hbase|apply Hempty]].
@@ -260,6 +261,7 @@ Proof.
       eapply Htop; [eapply lay_inv_mono; eauto|exact S3|exact Hins]. }
     apply P.
   - (* one multiplexor *)
+    destruct (ds_muxed dmx); [discriminate|].
     apply bind_ok in H. destruct H as [[[[st1 muxed] stds] last] [H1 H]].
     assert (P1 : evolved st st1 /\ pend_ok st1 muxed /\ pend_ok st1 stds).
     { revert H1. apply (fold_result_inv _ (fun a => evolved st (fst (fst (fst a))) /\ pend_ok (fst (fst (fst a))) (snd (fst (fst a)))
@@ -336,7 +338,8 @@ Proof.
       + destruct (lookup String.eqb _ _); [|discriminate]. destruct (Nat.leb j n); [discriminate|].
         inversion Hx; subst. cbn [fst snd]. split; [exact S1|]. split; [eapply lay_inv_mono; eauto|].
         apply app_nth_ok; assumption.
-      + apply bind_ok in Hx. destruct Hx as [[st4 sg4] [Hy Hx]]. inversion Hx; subst. cbn [fst snd].
+      + destruct (ds_muxed dmx'); [discriminate|].
+        apply bind_ok in Hx. destruct Hx as [[st4 sg4] [Hy Hx]]. inversion Hx; subst. cbn [fst snd].
         apply bind_ok in Hy. destruct Hy as [sg' [Hins Hy]]. inversion Hy; subst.
         split; [exact S1|]. split; [|exact Pg']. eapply Htop; [eapply lay_inv_mono; eauto|exact S3|exact Hins]. }
     apply P2.
